@@ -54,6 +54,7 @@ fn bulk_primitive(e: &Shape) -> bool {
 			Shape::NonZeroI(_) |
 			Shape::OptionBool |
 			Shape::Compact(_) |
+			Shape::CompactMax(..) |
 			Shape::CompactUnit |
 			Shape::Phantom
 	)
@@ -153,6 +154,7 @@ pub fn max_len(shape: &Shape) -> Option<usize> {
 		Shape::Bool | Shape::OptionBool => 1,
 		Shape::Unit | Shape::CompactUnit | Shape::Phantom => 0,
 		Shape::Compact(b) => crate::compact_len(domain::mask(*b)),
+		Shape::CompactMax(_, max) => crate::compact_len(*max),
 		Shape::Option(e) => 1 + max_len(e)?,
 		Shape::Result(a, c) => 1 + max_len(a)?.max(max_len(c)?),
 		Shape::Seq(..) | Shape::Map(..) | Shape::Str | Shape::Bytes | Shape::Bits { .. } => return None,
@@ -193,6 +195,7 @@ pub fn max_witness(shape: &Shape) -> Option<Value> {
 	max_len(shape)?;
 	Some(match shape {
 		Shape::UInt(b) | Shape::NonZeroU(b) | Shape::Compact(b) => Value::U(domain::mask(*b)),
+		Shape::CompactMax(_, max) => Value::U(*max),
 		Shape::SInt(_) | Shape::NonZeroI(_) => Value::I(-1),
 		Shape::F32 => Value::F32(u32::MAX),
 		Shape::F64 => Value::F64(u64::MAX),
